@@ -14,7 +14,9 @@ Kinds == {"GET", "POST", "HEAD", "CONNECT", "GETviaProxy", "CONNECTviaProxy", "M
 TlsFaults == {"tls_garbage", "tls_untrusted", "tls_expired", "tls_wrongname",
               \* the origin only speaks a protocol version the proxy does not accept (TLS 1.0); the origin takes the
               \* ClientHello and never answers (the handshake time-out of the transport ends the wait)
-              "tls_oldversion", "tls_stall"}
+              "tls_oldversion", "tls_stall",
+              \* the origin takes the ClientHello and closes the connection
+              "tls_eof"}
 Faults == {"dial_refused", "dial_timeout"} \cup TlsFaults \cup {
            "proxy_connect_403", "proxy_connect_407", "proxy_connect_502", "proxy_connect_403_body",
            "proxy_connect_100",    \* an interim reply and then silence: neither a tunnel nor a rejection
